@@ -881,6 +881,10 @@ def run(cx, rep):
                    "Location::build must take the reported file name, the source map and the end position from the same file value (found roots %s)" % sorted(roots), F.fns[g].loc(),
                    sample={"file_value": bound[:1], "projections_rooted_at": sorted(roots)})
 
+    # ---------------------------------------------------------------- C04.6
+    rep.rule("C04.6", "the converter never asks the engine a semantic question while definitions are under construction")
+    converter_typestate_rule(cx, rep, "C04.6", sccs_all=None)
+
     # positive controls
     rep.rule("C04.ctl", "positive controls in the canary crate")
     C = cx.canary
@@ -996,3 +1000,55 @@ def value_guarded_builtin(F, f, c):
 
 def strip_generics(s):
     return re.sub(r"::<[^>]*>", "", s)
+
+
+
+def converter_typestate_rule(cx, rep, rid, sccs_all=None):
+    """A recursive named type is converted by first pushing a PLACEHOLDER (`None`) into the atom table and filling it
+    in once its members are converted.  union / intersect / diff / complement never look inside an atom, so they are
+    safe on a half-built table; the emptiness and inclusion decisions (`is_empty`, `is_empty_status`, `is_subtype`,
+    `is_same_type`) dereference atoms with `expect(..)`.  Calling one of them from inside the conversion panics on
+    every recursive type whose body leads back to itself.  Decided (who-may-call, typestate of the atom tables):
+    no function in the recursion of the converter - the functions of subtyping/mod.rs that push a `None` slot into a
+    `*_definitions` table, and everything in their call-graph cycle - calls a semantic decision."""
+    F = cx.rs
+    DECISIONS = re.compile(r"SemTypeOps::(is_empty|is_empty_status|is_subtype|is_same_type)$")
+    sccs = [c for c in F.sccs(list(F.fns)) if len(c) > 1 or c[0] in F.edges.get(c[0], ())]
+    scc_of = {g: i for i, c in enumerate(sccs) for g in c}
+    # placeholder pushers: Vec::push on a table of optional atomic definitions with a `None`-typed argument
+    pushers = set()
+    for g, f in F.fns.items():
+        if not f.mir or f.crate == WASM:
+            continue
+        for c in f.calls:
+            if re.search(r"Vec::<[^>]*>::push$|Vec::<T, A>::push$", c.path or "") or (c.best or "").endswith("::push"):
+                full = (c.term["callee"].get("resolved_full") or c.term["callee"].get("full") or "")
+                if re.search(r"Vec::<std::option::Option<std::rc::Rc<[\w:]*(ListAtomic|MappingAtomicType)>>", full):
+                    pushers.add(g)
+    rep.floor(rid, "functions that push a placeholder into an atom table", len(pushers), 1)
+    members = set()
+    for g in pushers:
+        if g in scc_of:
+            members |= set(sccs[scc_of[g]])
+        members.add(g)
+    n_dec = 0
+    for g in sorted(F.fns):
+        f = F.fns[g]
+        if not f.mir:
+            continue
+        for c in f.calls:
+            if DECISIONS.search(c.path or ""):
+                n_dec += 1
+    rep.floor(rid, "call sites of the semantic decisions (matcher alive)", n_dec, 3)
+    bad_n = 0
+    for g in sorted(members):
+        f = F.fns[g]
+        if not f.mir:
+            continue
+        for c in f.calls:
+            if DECISIONS.search(c.path or ""):
+                bad_n += 1
+                rep.ob(rid, "%s->%s" % (re.sub(r"(::\{closure#\d+\})+$", "", strip_generics(g)), c.path.rsplit("::", 1)[-1]), False,
+                       "%s (part of the converter's recursion, during which atom slots of the types being converted still hold placeholders) calls %s: the decision dereferences the placeholder of any type that leads back to itself and panics (`should exist`) instead of producing code or a diagnostic" % (g, c.path),
+                       "%s:%s" % (c.file, c.line), sample={"fn": g, "call": c.path})
+    rep.ob(rid, "converter-recursion", True, sample={"functions_in_the_converter_recursion": len(members), "decision_calls_inside": bad_n})
